@@ -3,6 +3,21 @@ TRUST = ("trusted: CPython ast; the checker's own engines; for table rules the i
          "against the real loaders at development time). Known findings are listed in KNOWN_FINDINGS.txt. ")
 
 META = {
+    "C14": {
+        "engine": "sa: constant folding, finite case analysis, block-local typestate",
+        "technique": "constant folding of the neighbourhood enumeration per instantiated cell size; complete case "
+                     "analysis of the key expression over (sign, truncation) classes; typestate pairing of "
+                     "remove_cell/add_cell with coordinate stores and deletions on every path of the optimisation code",
+        "text": "R1: for every cell size the code instantiates the offsets fold to {-s,0,s} on three own axes and only "
+                "the query atom is skipped. R3: the key expression uses a coordinate only through int() and a sign test, "
+                "so it is constant on unit classes of the real line; over those classes it is monotone, every cell is at "
+                "least one cell-size wide and adjacent keys differ by exactly s, hence two points closer than s lie in the "
+                "same or adjacent cells for ALL real coordinates (negative, zero, on boundaries, far away). R2: in all "
+                "optimisation/debump code every deletion is preceded by remove_cell of the same atom (or the atom was "
+                "never bucketed on that path) and every coordinate store on a bucketed atom is bracketed by "
+                "remove_cell/add_cell of that atom on every path - the history clause of the property.",
+        "note": TRUST + "rotate_tetrahedral scans are judged at call sites (closed scans, C05.R4).",
+    },
     "C04": {
         "engine": "sa: table model x guard engine, call graph, effect classification",
         "technique": "exhaustive torsion move-set table (selection procedure read from the code, evaluated on every patched "
